@@ -39,7 +39,7 @@ ALPHABET = (
 )
 WEIGHTS = {"set_period": 1.2, "correct": 1.0, "set_opts": 0.5, "correct_default": 1.0, "read": 1.0, "propagate": 1.0, "trajectory": 3.0,
            "bad_period": 1.0, "set_amp": 0.7, "save_load": 0.25, "load_inplace": 0.15, "save_fault": 0.5, "save_torn_load": 0.3, "generate": 0.35, "sys_propagate": 0.9, "set_corr_config": 0.8}
-REDUCED = [("set_period", "x1.1"), ("set_period", "none"), ("correct", 0, 0), ("correct", 1, 1), ("set_opts", 1), ("correct_default",),
+REDUCED = [("set_period", "x1.1"), ("set_period", "none"), ("correct", 0, 0), ("correct", 1, 1), ("set_opts", 1), ("set_corr_config", 1), ("correct_default",),
            ("read", "period"), ("read", "monodromy"), ("read", "stability_indices"), ("propagate", 0), ("propagate", 1), ("propagate", 3), ("trajectory",),
            ("bad_period",), ("save_fault", "enospc")]
 MUTATORS = {"set_period", "correct", "set_opts", "correct_default", "set_amp", "save_load", "load_inplace", "set_corr_config"}
@@ -480,6 +480,9 @@ CORE3 = [("set_period", "x1.1"), ("correct", 0, 0), ("read", "monodromy"), ("rea
          ("propagate", 3), ("trajectory",)]
 
 
+CORE3B = [("correct", 1, 1), ("correct", 0, 0), ("set_corr_config", 1), ("set_opts", 1), ("correct_default",), ("read", "period")]
+
+
 def enumeration(max_len: int):
     """Choice sequences for every history of length <= max_len over REDUCED on one EM L1 halo orbit; when max_len < 3,
     additionally every history of length exactly 3 over the small CORE3 alphabet (compute -> mutate -> re-read is the
@@ -489,6 +492,9 @@ def enumeration(max_len: int):
         core = [ALPHABET.index(op) + 1 for op in CORE3]
         for seq in itertools.product(core, repeat=3):
             yield [0, 0, 0, 1] + list(seq) + [0]     # on an orbit that starts corrected, with its period set
+        coreb = [ALPHABET.index(op) + 1 for op in CORE3B]
+        for seq in itertools.product(coreb, repeat=3):
+            yield [0, 0, 1, 0] + list(seq) + [0]     # on a Lyapunov orbit that starts at the analytic guess: corrections have real work to do
     idx = [ALPHABET.index(op) + 1 for op in REDUCED]
     # prefix: machine=orbit(0), n_objects=1 (0), spec index 0
     for L in range(1, max_len + 1):
